@@ -332,7 +332,8 @@ Definition ok_opt {A} (r : res A) : option A := match r with Ok a => Some a | _ 
 Definition expectation (cfg : rcfg) : option expect :=
   match rc_menu cfg, sink_of cfg with
   | Some (sep, items, b, _), Some sk =>
-    if (len sep =? 0) || negb (b_next_avail b) || negb (b_prev_avail b) then None else
+    (* 'next' must be configured (the walk uses it); 'previous' may be missing: ex_prev = [] then *)
+    if (len sep =? 0) || negb (b_next_avail b) then None else
     match ok_opt (tbl_template (rc_tpls cfg) (rc_sym cfg)) with
     | None => None
     | Some src =>
@@ -356,7 +357,8 @@ Definition expectation (cfg : rcfg) : option expect :=
                 all_some (map (entry_text cfg sep) items),
                 entry_text cfg sep (b_next_sel b, b_next_title b),
                 entry_text cfg sep (b_prev_sel b, b_prev_title b) with
-          | Some pre, Some post, Some ents, Some nx, Some pv =>
+          | Some pre, Some post, Some ents, Some nx, Some pv0 =>
+            let pv := if b_prev_avail b then pv0 else [] in
             let raw := match sk with
                        | SymSink k => match cache_entry cfg k with Some (v, _) => v | None => [] end
                        | _ => [] end in
@@ -369,7 +371,7 @@ Definition expectation (cfg : rcfg) : option expect :=
                      end)
                     sk raw
                     (len (b_next_sel b) + 1 + len (b_next_title b))
-                    (len (b_prev_sel b) + 1 + len (b_prev_title b)))
+                    (if b_prev_avail b then len (b_prev_sel b) + 1 + len (b_prev_title b) else 0))
           | _, _, _, _, _ => None
           end
         end
@@ -386,9 +388,10 @@ Definition decode_with (ex : expect) (out : bytes) (nx pv : bool) : option bytes
   else None.
 
 Definition decode (ex : expect) (out : bytes) : option (bool * bool * bytes) :=
-  match decode_with ex out true true with Some x => Some (true, true, x) | None =>
+  let pvc := negb (len (ex_prev ex) =? 0) in   (* is a 'previous' entry configured at all *)
+  match (if pvc then decode_with ex out true true else None) with Some x => Some (true, true, x) | None =>
   match decode_with ex out true false with Some x => Some (true, false, x) | None =>
-  match decode_with ex out false true with Some x => Some (false, true, x) | None =>
+  match (if pvc then decode_with ex out false true else None) with Some x => Some (false, true, x) | None =>
   match decode_with ex out false false with Some x => Some (false, false, x) | None => None
   end end end end.
 
@@ -408,7 +411,7 @@ Fixpoint c02_walk (ex : expect) (i : N) (outs : list (res bytes)) (acc : list by
     | Some (nx, pv, x) =>
       match shown_rows ex x with
       | Some rows =>
-        if Bool.eqb pv (0 <? i) then
+        if Bool.eqb pv ((0 <? i) && negb (len (ex_prev ex) =? 0)) then
           (if nx then c02_walk ex (i + 1) rest (acc ++ rows) else Some (i + 1, acc ++ rows, rest))
         else None
       | None => None
@@ -435,7 +438,8 @@ Definition sized (cfg : rcfg) : option N :=
   match rc_size cfg with Some n => if (0 <? n) && negb (rc_late cfg) then Some n else None | None => None end.
 
 (* C02 applies to: walk cases on a VM-shaped page (menu attached, sizer attached before the
-   Maps, output size > 0, both browse entries configured, non-empty separator), whose template
+   Maps, output size > 0, the 'next' entry configured - 'previous' is then expected exactly when it is
+   configured too -, non-empty separator), whose template
    resolves, parses inside the fragment and mentions the sink exactly once, whose labels
    resolve, and whose page 0 renders.  Everything else is correspondence-only. *)
 Definition c02_ok (rc : rcase) : bool :=
